@@ -62,17 +62,12 @@ func init() {
 	register(&Rule{
 		Name:  "LOCK-TYPESTATE",
 		IR:    "cfg",
-		Props: []string{"C40", "C23"},
+		Props: []string{"C40", "C23", "C26"},
 		// A lock operation that is illegal in its state (RUnlock of an unlocked RWMutex) is a fatal
-		// runtime error that ends the server: the #balance obligations also serve C23.
-		Narrow: func(o *Obligation) {
-			if strings.HasSuffix(o.Key, "#balance") {
-				o.Props = []string{"C40", "C23"}
-			} else {
-				o.Props = []string{"C40"}
-			}
-		},
-		FloorBy: map[string]int{"C23": 6},
+		// runtime error that ends the server: the #balance obligations also serve C23. In the two
+		// functions that apply a client's change (both contain an #apply obligation) the imbalance is
+		// on the path that reports the outcome of the change, so the caller is never told: C26.
+		FloorBy: map[string]int{"C23": 6, "C26": 2},
 		// grpc service.Evaluate (apply, balance); api EvaluateExpression (apply, balance), EvaluateString (call),
 		// EvaluateProto (call); ui EvaluateHandler.ServeHTTP (2 calls), OpenSourceUI.ServeStack (call, balance),
 		// OpenSourceUI.ServeStartup (balance), CompareHandler.ServeHTTP (call, balance), lockedHandler.ServeHTTP
@@ -82,7 +77,27 @@ func init() {
 			"every lock operation legal in its state and every return in the state the deferred unlock (or the caller) expects; " +
 			"every call of a function with an entry requirement (derived: EvaluateExpression RUnlocks first, so it and its wrappers require R) made in that state; " +
 			"entry points are entered in none, evaluation callbacks (api.FunctionSymbols) in the state api.Evaluate is called in",
-		Run: runLockTypestate,
+		Run: func(c *Ctx) []Obligation {
+			out := runLockTypestate(c)
+			appliers := map[string]bool{} // functions that apply a change to a shared world themselves
+			for _, o := range out {
+				if i := strings.Index(o.Key, "#apply"); i >= 0 {
+					appliers[o.Key[:i]] = true
+				}
+			}
+			for i := range out {
+				k := out[i].Key
+				switch {
+				case strings.HasSuffix(k, "#balance") && appliers[strings.TrimSuffix(k, "#balance")]:
+					out[i].Props = []string{"C40", "C23", "C26"}
+				case strings.HasSuffix(k, "#balance"):
+					out[i].Props = []string{"C40", "C23"}
+				default:
+					out[i].Props = []string{"C40"}
+				}
+			}
+			return out
+		},
 	})
 }
 
